@@ -38,8 +38,6 @@
 (***************************************************************************)
 EXTENDS Text, TLC
 
-CONSTANT Scenarios      \* the scenarios explored (overridden per configuration)
-
 -----------------------------------------------------------------------------
 (* 1. cli/flags.go: parseFlags on the flags of the property                 *)
 (*                                                                          *)
@@ -201,7 +199,7 @@ HaltDiag(ev) == IF ev.v.t = "null" THEN <<>>
 ErrorText(v) == TErrorColon \o (IF v.t = "str" THEN v.s ELSE JsonText(v).s)
 \* events of the oracle
 ValEv(v) == [k |-> "val", v |-> v]
-ErrEv(v) == [k |-> "err", msg |-> ErrorText(v)]          \* error(v): exitCodeError{v, 5}
+ErrEv(v) == [k |-> "err", msg |-> ErrorText(v), v |-> v]   \* error(v): exitCodeError{v, 5} (v is only for the driver)
 HaltEv(v, c) == [k |-> "halt", v |-> v, c |-> c]         \* halt = HaltEv(Null, 0); halt_error = HaltEv(., 5)
 \* emptyError.ExitCode: the error's own ExitCode() if it has one, else exitCodeDefaultErr
 ErrCode(ev) == IF "c" \in DOMAIN ev THEN ev.c ELSE 5
@@ -398,7 +396,7 @@ Fold(items, o, acc) ==
               [] st.k = "val" -> Fold(Tail(items), o, [a1 EXCEPT !.diag = Append(@, NulDiag), !.failed = TRUE])
               [] st.k = "err" -> Fold(Tail(items), o, [a1 EXCEPT !.diag = Append(@, ErrDiag(st)), !.failed = TRUE, !.code = ErrCode(st)])
               \* halt and halt_error stop at once
-              [] st.k = "halt" -> [a1 EXCEPT !.diag = @ \o HaltDiag(st), !.halted = TRUE, !.code = st.c]
+              [] st.k = "halt" -> [a1 EXCEPT !.diag = @ \o HaltDiag(st), !.stopped = TRUE, !.code = st.c]
 
 Expected(s) ==
   LET pa == ParseArgs(s.args) IN
@@ -406,18 +404,19 @@ Expected(s) ==
   ELSE LET o == pa.o IN
   IF o.indset /\ (o.ind > 9 \/ o.ind < 0) THEN [out |-> <<>>, stdout |-> <<>>, diag |-> <<IndentDiag(o.ind)>>, exit |-> 5]   \* M7
   ELSE IF s.query # "ok" THEN [out |-> <<>>, stdout |-> <<>>, diag |-> <<QueryDiag(s.query)>>, exit |-> 3]
-  ELSE LET f == Fold(InputItems(s, o), o, [out |-> <<>>, diag |-> <<>>, failed |-> FALSE, halted |-> FALSE, code |-> 5])
+  ELSE LET f == Fold(InputItems(s, o), o, [out |-> <<>>, diag |-> <<>>, failed |-> FALSE, stopped |-> FALSE, code |-> 5])
        IN [out |-> f.out,
            stdout |-> RenderAll(f.out, o),
            diag |-> f.diag,
-           exit |-> IF f.halted THEN f.code % 256                     \* the requested status modulo 256 (also after earlier errors)
+           exit |-> IF f.stopped THEN f.code % 256                     \* the requested status modulo 256 (also after earlier errors)
                     ELSE IF f.failed THEN f.code % 256                \* 5 after any runtime or input error (an error beats --exit-status)
                     ELSE IF o.e THEN (IF f.out = <<>> THEN 4 ELSE IF Truthy(f.out[Len(f.out)]) THEN 0 ELSE 1)
                     ELSE 0]
 
-Init ==
-  /\ sc \in Scenarios
-  /\ exp = Expected(sc)
+\* the initial state for scenario s; the configurations (CliMC, CliTrace) say which scenarios are explored
+InitWith(s) ==
+  /\ sc = s
+  /\ exp = Expected(s)
   /\ pc = "flags"
   /\ opts = DefaultOpts
   /\ inputs = <<>> /\ events = <<>>
@@ -427,10 +426,8 @@ Init ==
   /\ halted = FALSE
   /\ exit = -1
 
-Spec == Init /\ [][Next]_vars
-
 \* ---- invariants ----------------------------------------------------------
-IsPrefix(a, b) == Len(a) <= Len(b) /\ SubSeq(b, 1, Len(a)) = a
+PrefixOf(a, b) == Len(a) <= Len(b) /\ SubSeq(b, 1, Len(a)) = a
 
 TypeOK ==
   /\ pc \in {"flags", "options", "parse", "compile", "loop", "values", "finish", "done"}
@@ -443,10 +440,10 @@ TypeOK ==
 \* stdout is, at every moment, the rendering of the values printed so far and those are a prefix of what the
 \* property prescribes: nothing but rendered outputs ever reaches stdout, in order
 StdoutIsRenderedOutputs ==
-  /\ IsPrefix(outvals, exp.out)
+  /\ PrefixOf(outvals, exp.out)
   /\ stdout = RenderAll(outvals, opts)
 \* diagnostics go to stderr, in the prescribed order
-StderrIsDiagnostics == IsPrefix(stderr, exp.diag)
+StderrIsDiagnostics == PrefixOf(stderr, exp.diag)
 \* at the end everything prescribed was printed (later inputs are processed after an error) and the status is right
 EndState == pc = "done" => /\ outvals = exp.out
                            /\ stdout = exp.stdout
@@ -469,6 +466,6 @@ StatusTable ==
 
 \* action properties: nothing is written after a halt; stdout only grows; the status is set once
 NothingAfterHalt == [][halted => (stdout' = stdout /\ stderr' = stderr)]_vars
-StdoutOnlyGrows == [][IsPrefix(stdout, stdout') /\ IsPrefix(stderr, stderr')]_vars
+StdoutOnlyGrows == [][PrefixOf(stdout, stdout') /\ PrefixOf(stderr, stderr')]_vars
 ExitSetOnce == [][exit # -1 => exit' = exit]_vars
 =============================================================================
